@@ -244,3 +244,113 @@ Section FindIterateRules.
     destruct (lookup_prefix ctx (space_of e)); [discriminate|discriminate].
   Qed.
 End FindIterateRules.
+
+(* ---- NSFindOneChild: what its three outcomes say about the direct children ----
+   [HasChild ns tag root]: some direct child ELEMENT of root resolves to (ns, tag) in the context in force at that child
+   (default context + root's declarations + the child's own). *)
+Definition HasChild (namespace tag : string) (root : node) : Prop :=
+  exists i e ctx, subtree root [i] = Some e /\ is_elem e = true /\ ctx_at default_ctx root [i] = Some ctx /\
+                  resolves ctx e namespace tag = true.
+
+Lemma sub_ctx_ok c attrs c' : sub_ctx c attrs = Ok c' <-> sub_context c attrs = Ok c'.
+Proof. unfold sub_ctx. destruct (sub_context c attrs); split; intros H; inversion H; reflexivity. Qed.
+
+Lemma find_child_loop_none c namespace tag ks : forall i lim lim',
+  find_child_loop c namespace tag ks i lim = Ok (None, lim') ->
+  forall j e c2, nth_error ks j = Some e -> is_elem e = true -> sub_context c (attrs_of e) = Ok c2 ->
+    resolves c2 e namespace tag = false.
+Proof.
+  induction ks as [|k r IH]; intros i lim lim' H j e c2 Hj He Hc; [destruct j; discriminate|].
+  cbn [find_child_loop] in H.
+  destruct k as [sp tg attrs kk| | | | ].
+  - destruct lim as [|lim0]; [discriminate|].
+    destruct (sub_ctx c attrs) as [c0|er] eqn:ES; cbn [bind] in H; [|discriminate].
+    apply sub_ctx_ok in ES.
+    destruct (lookup_prefix c0 sp) as [n|] eqn:EL; [|discriminate].
+    destruct ((n =?s namespace) && (tg =?s tag))%bool eqn:EM; [discriminate|].
+    destruct j as [|j].
+    + cbn in Hj. inversion Hj; subst e. cbn [attrs_of] in Hc. rewrite ES in Hc. inversion Hc; subst c2.
+      unfold resolves. cbn [space_of tag_of]. rewrite EL. exact EM.
+    + cbn in Hj. eapply IH; eauto.
+  - destruct j as [|j]; [cbn in Hj; inversion Hj; subst e; discriminate|cbn in Hj; eapply IH; eauto].
+  - destruct j as [|j]; [cbn in Hj; inversion Hj; subst e; discriminate|cbn in Hj; eapply IH; eauto].
+  - destruct j as [|j]; [cbn in Hj; inversion Hj; subst e; discriminate|cbn in Hj; eapply IH; eauto].
+  - destruct j as [|j]; [cbn in Hj; inversion Hj; subst e; discriminate|cbn in Hj; eapply IH; eauto].
+Qed.
+
+Lemma find_child_loop_some c namespace tag ks : forall i lim lim' j s,
+  find_child_loop c namespace tag ks i lim = Ok (Some (j, s), lim') ->
+  exists d c2, j = i + d /\ nth_error ks d = Some s /\ is_elem s = true /\ sub_context c (attrs_of s) = Ok c2 /\
+               resolves c2 s namespace tag = true.
+Proof.
+  induction ks as [|k r IH]; intros i lim lim' j s H; cbn [find_child_loop] in H; [discriminate|].
+  assert (Hrec : forall lim0, find_child_loop c namespace tag r (Datatypes.S i) lim0 = Ok (Some (j, s), lim') ->
+            exists d c2, j = i + d /\ nth_error (k :: r) d = Some s /\ is_elem s = true /\ sub_context c (attrs_of s) = Ok c2 /\
+                         resolves c2 s namespace tag = true).
+  { intros lim0 H0. destruct (IH _ _ _ _ _ H0) as (d & c2 & -> & Hn & He & Hc & Hr).
+    exists (Datatypes.S d), c2. repeat split; auto. rewrite <- plus_n_Sm. reflexivity. }
+  destruct k as [sp tg attrs kk| | | | ]; try (eapply Hrec; exact H).
+  destruct lim as [|lim0]; [discriminate|].
+  destruct (sub_ctx c attrs) as [c0|er] eqn:ES; cbn [bind] in H; [|discriminate].
+  apply sub_ctx_ok in ES.
+  destruct (lookup_prefix c0 sp) as [n|] eqn:EL; [|discriminate].
+  destruct ((n =?s namespace) && (tg =?s tag))%bool eqn:EM.
+  - inversion H; subst. exists 0, c0. repeat split; auto.
+    unfold resolves. cbn [space_of tag_of]. rewrite EL. exact EM.
+  - eapply Hrec; exact H.
+Qed.
+
+Lemma has_child_inv namespace tag sp tg attrs kids :
+  HasChild namespace tag (Elem sp tg attrs kids) <->
+  exists c i e c2, sub_context default_ctx attrs = Ok c /\ nth_error kids i = Some e /\ is_elem e = true /\
+                   sub_context c (attrs_of e) = Ok c2 /\ resolves c2 e namespace tag = true.
+Proof.
+  unfold HasChild. cbn [subtree kids_of ctx_at]. split.
+  - intros (i & e & ctx & Hs & He & Hc & Hr).
+    destruct (sub_context default_ctx attrs) as [c|er]; [|discriminate].
+    destruct (nth_error kids i) as [k|] eqn:EN; [|discriminate]. inversion Hs; subst k.
+    destruct e as [sp' tg' at' kk'| | | | ]; try discriminate. cbn [ctx_at] in Hc.
+    destruct (sub_context c at') as [c2|er] eqn:E2; [|discriminate]. inversion Hc; subst ctx.
+    exists c, i, (Elem sp' tg' at' kk'), c2. auto.
+  - intros (c & i & e & c2 & Hc & Hn & He & Hc2 & Hr). exists i, e, c2. rewrite Hc, Hn.
+    destruct e as [sp' tg' at' kk'| | | | ]; try discriminate. cbn [ctx_at attrs_of] in *. rewrite Hc2. auto.
+Qed.
+
+(* "no such child" is only ever answered when there is none ... *)
+Lemma ns_find_one_child_none root namespace tag :
+  ns_find_one_child root namespace tag = Ok None -> ~ HasChild namespace tag root.
+Proof.
+  unfold ns_find_one_child, find_one_child. intros H HC.
+  destruct root as [sp tg attrs kids| | | | ];
+    try (destruct HC as (i & e & ctx & Hs & _); cbn in Hs; destruct i; discriminate).
+  apply has_child_inv in HC as (c & i & e & c2 & Hc & Hn & He & Hc2 & Hr).
+  cbn [attrs_of kids_of] in H. apply sub_ctx_ok in Hc. rewrite Hc in H. cbn [bind] in H.
+  destruct (find_child_loop c namespace tag kids 0 traversal_limit) as [[[[j s]|] lim']|er] eqn:EF; cbn [bind fst option_map] in H;
+    try discriminate.
+  rewrite (find_child_loop_none _ _ _ _ _ _ _ EF i e c2 Hn He Hc2) in Hr. discriminate.
+Qed.
+
+(* ... and a child that is answered is one *)
+Lemma ns_find_one_child_some root namespace tag s :
+  ns_find_one_child root namespace tag = Ok (Some s) -> HasChild namespace tag root.
+Proof.
+  unfold ns_find_one_child, find_one_child. intros H.
+  destruct root as [sp tg attrs kids| | | | ]; try (cbn in H; discriminate).
+  cbn [attrs_of kids_of] in H.
+  destruct (sub_ctx default_ctx attrs) as [c|er] eqn:ES; cbn [bind] in H; [|discriminate].
+  apply sub_ctx_ok in ES.
+  destruct (find_child_loop c namespace tag kids 0 traversal_limit) as [[[[j s']|] lim']|er] eqn:EF; cbn [bind fst option_map] in H;
+    try discriminate.
+  destruct (find_child_loop_some _ _ _ _ _ _ _ _ _ EF) as (d & c2 & _ & Hn & He & Hc2 & Hr).
+  apply has_child_inv. exists c, d, s', c2. auto.
+Qed.
+
+(* so: with such a child, the lookup finds a ds:Signature-like child or fails (budget, undeclared prefix or reserved
+   declaration on an EARLIER sibling) — it never reports absence *)
+Lemma ns_find_one_child_has_child root namespace tag :
+  HasChild namespace tag root ->
+  (exists s, ns_find_one_child root namespace tag = Ok (Some s)) \/ (exists e, ns_find_one_child root namespace tag = Err e).
+Proof.
+  intros HC. destruct (ns_find_one_child root namespace tag) as [[s|]|e] eqn:EF; eauto.
+  exfalso. exact (ns_find_one_child_none _ _ _ EF HC).
+Qed.
